@@ -117,6 +117,100 @@ def mutable_args_scenario(chk):
     return fails
 
 
+TYPED_SRC = """import datetime
+from twosigma.memento import memento_function
+
+
+@memento_function(cluster="cp")
+def scale(a, x, unit="u"):
+    return [a, x, unit]
+
+
+@memento_function(cluster="cp")
+def price(ts):
+    return ts.isoformat()
+
+
+@memento_function(cluster="cp")
+def report(x):
+    out = [scale.partial(a=1)(x), scale.partial(a=2)(x), scale.partial(1, unit="m")(x), scale(3, x)]
+    out += scale.partial(a=4).call_batch([{"x": x}, {"x": x + 1}])
+    tz = datetime.timezone(datetime.timedelta(hours=5, minutes=30))
+    base = datetime.datetime(2024, 3, 1, 9, 30, tzinfo=tz)
+    out += [price(base), price(base + datetime.timedelta(hours=1)), price(datetime.datetime(2024, 3, 1, 9, 30)),
+            price(datetime.date(2024, 3, 1)), price(datetime.datetime(2024, 3, 1, 4, 0, tzinfo=datetime.timezone.utc))]
+    return out
+"""
+
+
+def typed_args_scenario(chk):
+    """sub-calls through differently bound partial applications of one function, and with date / naive / zone-aware
+    timestamp arguments: every recorded invocation carries the identity (function, argument hash) of *its* call, cold and
+    with sub-calls memoized beforehand, as recorded and as re-read by a backend object that decodes the stored record."""
+    import datetime
+    import linecache
+    import types
+    import twosigma.memento as m
+    from twosigma.memento import Environment, ConfigurationRepository, FunctionCluster
+    from twosigma.memento.storage_memory import MemoryStorageBackend
+    from twosigma.memento.storage_filesystem import FilesystemStorageBackend
+    prev = m.Environment.get()
+    fails = []
+    try:
+        for backend in ("fs", "memory", "fs+cache"):
+            for pre in ([], [0, 1, 6], list(range(11))):
+                d = tempfile.mkdtemp(prefix="c10t_", dir=chk.tmpdir())
+
+                def mk():
+                    if backend == "memory":
+                        return MemoryStorageBackend()
+                    return FilesystemStorageBackend(path=os.path.join(d, "s"), **({"memory_cache_mb": 1} if backend == "fs+cache" else {}))
+                st = mk()
+                m.Environment.set(Environment(name="cp", base_dir=d, repos=[ConfigurationRepository(name="r", clusters={"cp": FunctionCluster(name="cp", storage=st)})]))
+                _mut_n[0] += 1
+                modname = "c10typ_%d_%d" % (os.getpid(), _mut_n[0])
+                fname = "<%s>" % modname
+                linecache.cache[fname] = (len(TYPED_SRC), None, TYPED_SRC.splitlines(True), fname)
+                mod = types.ModuleType(modname)
+                sys.modules[modname] = mod
+                exec(compile(TYPED_SRC, fname, "exec"), mod.__dict__)
+                try:
+                    x = 5
+                    tz = datetime.timezone(datetime.timedelta(hours=5, minutes=30))
+                    base = datetime.datetime(2024, 3, 1, 9, 30, tzinfo=tz)
+                    calls = [(mod.scale.partial(a=1), (x,)), (mod.scale.partial(a=2), (x,)), (mod.scale.partial(1, unit="m"), (x,)), (mod.scale, (3, x)),
+                             (mod.scale.partial(a=4), (x,)), (mod.scale.partial(a=4), (x + 1,)),
+                             (mod.price, (base,)), (mod.price, (base + datetime.timedelta(hours=1),)), (mod.price, (datetime.datetime(2024, 3, 1, 9, 30),)),
+                             (mod.price, (datetime.date(2024, 3, 1),)), (mod.price, (datetime.datetime(2024, 3, 1, 4, 0, tzinfo=datetime.timezone.utc),))]
+                    want = [(f.fn_reference().qualified_name, f.fn_reference().with_args(*a).arg_hash) for f, a in calls]
+                    for i in pre:
+                        calls[i][0](*calls[i][1])
+                    mod.report(x)
+                    got = [(inv.fn_reference.qualified_name, inv.arg_hash) for inv in mod.report.memento(x).invocation_metadata.invocations]
+                    if backend != "memory":
+                        m.Environment.set(Environment(name="cp", base_dir=d, repos=[ConfigurationRepository(name="r", clusters={"cp": FunctionCluster(name="cp", storage=mk())})]))
+                        mm = mod.report.memento(x)
+                        got2 = [(inv.fn_reference.qualified_name, inv.arg_hash) for inv in mm.invocation_metadata.invocations]
+                        # ... and every recorded invocation names a call whose memento exists
+                        st3 = m.Environment.get().get_cluster("cp").storage
+                        dangling = [h[:12] for (q, h), inv in zip(got2, mm.invocation_metadata.invocations)
+                                    if st3.get_mementos([inv.fn_reference_with_arg_hash()])[0] is None]
+                    else:
+                        got2, dangling = got, []
+                    chk.case(["typed-arguments", backend, pre], nontrivial=True, sample=dict(kind="partial variants and timestamp arguments", backend=backend, pre=pre))
+                    chk.count("mode:typed-arguments")
+                    if got != want or got2 != want or dangling:
+                        fails.append(dict(clause="provenance-exact", scenario="typed-arguments", backend=backend, pre=pre,
+                                          recorded=[h[:12] for _, h in got], reread=[h[:12] for _, h in got2], expected=[h[:12] for _, h in want],
+                                          no_memento_for=dangling))
+                finally:
+                    sys.modules.pop(modname, None)
+                    shutil.rmtree(d, ignore_errors=True)
+    finally:
+        m.Environment.set(prev)
+    return fails
+
+
 _mut_n = [0]
 
 
@@ -214,7 +308,7 @@ def main(chk, replay=None):
                 pass
             def count(self, *a, **k):
                 pass
-        fl = mutable_args_scenario(_C2()) if replay["extra_scenario"] == "mutable-arguments" else lost_result_scenario(_C2())
+        fl = {"mutable-arguments": mutable_args_scenario, "typed-arguments": typed_args_scenario}.get(replay["extra_scenario"], lost_result_scenario)(_C2())
         print(json.dumps(dict(still_fails=bool(fl), observed=fl[:2]), default=str))
         return 1 if fl else 0
     if replay is not None and replay.get("concurrent"):
@@ -245,7 +339,7 @@ def main(chk, replay=None):
     chk.rule = ("generated call-DAG programs with repeated, batched, failing (memoized and non-memoized) sub-calls, context "
                 "overrides and resources; for a root call the recorded provenance is compared with the model and across "
                 "pre-memoized subsets of the distinct sub-calls (quick: 10 random subsets; thorough: all 2^n for n <= 6), "
-                "single vs batch invocation, memory vs filesystem backend. Distinct = distinct (program, root, subset, mode); "
+                "single vs batch invocation, memory vs filesystem backend; directed: mutable arguments changed between sub-calls, sub-calls through differently bound partial applications and with date / naive / zone-aware timestamp arguments (as recorded and as re-read from disk), lost result data. Distinct = distinct (program, root, subset, mode); "
                 "non-trivial = root has >= 1 sub-call.")
     proof_ok = chk.build_and_audit()
     quick = chk.tier == "quick"
@@ -275,7 +369,7 @@ def main(chk, replay=None):
                                                  ["batch", 3, [0, 1], "i", False, False, False, False, Z]], const=3, **{"raise": [0, 0, 0, 0]})}),
     ]
     concurrent_subcall(chk)
-    for fl in (mutable_args_scenario(chk) + lost_result_scenario(chk))[:3]:
+    for fl in (mutable_args_scenario(chk) + typed_args_scenario(chk) + lost_result_scenario(chk))[:3]:
         chk.violation({"what": "provenance (%s): %s" % (fl["scenario"], fl["clause"]), "class": {"clause": fl["clause"], "scenario": fl["scenario"]},
                        "extra_scenario": fl["scenario"], "observed": fl})
     for pi in range(nprog + 2 * len(corpus)):
